@@ -324,6 +324,9 @@ def run(chk, replay):
                 "class, generated/derived source); trivial = a single colander(all, finest)")
     chk.assumptions = ["user recipe new1 = 2*field1 + field2 (bit-exact numpy evaluation)"]
     nlev = 2
+    if replay and replay["scenario"].get("chef_cwd_history"):
+        from checks import c11
+        return c11.cwd_history(chk)
     if replay and replay["scenario"].get("recipe_history"):
         from checks import c11
         return c11.recipe_histories(chk, only=replay["scenario"]["recipe_history"])
